@@ -42,6 +42,37 @@ m('c17-swallow-exc', 'C17', 'utils/threading.py',
   "                to_append = await output_value\n",
   "                try:\n                    to_append = await output_value\n                except Exception:\n                    continue\n")
 
+# ---- C10 -----------------------------------------------------------------------------------------------
+m('c10-first-match', 'C10', 'task.py',
+  "    if len(matching_tasks) > 1:\n        raise KeyError(f'Ambiguous task name", "    if len(matching_tasks) > 99:\n        raise KeyError(f'Ambiguous task name")
+m('c10-no-priority', 'C10', 'task.py',
+  "            if all(_is_less_nested(cand, t) for t in matching_tasks):", "            if False:")
+m('c10-textual-suffix', 'C10', 'task.py',
+  "            if all(_is_less_nested(cand, t) for t in matching_tasks):", "            if all(t.endswith(cand) for t in matching_tasks):")
+m('c10-group-endswith', 'C10', 'task.py',
+  "            return fullname.split(':')[-1] == name", "            return fullname.endswith(name)")
+m('c10-partial-group', 'C10', 'task.py',
+  "        if ':' in fullname and ':' not in name:\n            return fullname.split(':')[-1] == name",
+  "        if ':' in fullname:\n            return fullname.endswith(':' + name)")
+m('c10-ns-ignored', 'C10', 'task.py',
+  "        if (namespace or not determine_namespace) and fullnamespace != namespace:",
+  "        if (namespace or not determine_namespace) and not fullnamespace.endswith(namespace):")
+
+# ---- C11 -----------------------------------------------------------------------------------------------
+m('c11-top-level-only', 'C11', 'utils/data.py',
+  "                if not _traverse(v) and _is_valid(v):\n                    o[k] = fce(v)", "                if not isinstance(v, (list, dict)) and _is_valid(v):\n                    o[k] = fce(v)")
+m('c11-resubstitute', 'C11', 'utils/data.py',
+  "        if isinstance(string, ReprStr):\n            return string\n", "")
+m('c11-greedy', 'C11', 'utils/data.py', "re.subn(r'{(.*?)}', _replace, string)", "re.subn(r'{(.*)}', _replace, string)")
+m('c11-no-deepcopy', 'C11', 'utils/data.py', "    def __deepcopy__(self, memo):\n        return self.__copy__()\n", "")
+m('c11-copy-requote', 'C11', 'utils/data.py', "        copied.repr = self.repr\n", "        copied.repr = repr(self.repr)\n")
+m('c11-list-skip-first', 'C11', 'utils/data.py',
+  "            for i, v in enumerate(o):\n                if not _traverse(v) and _is_valid(v):", "            for i, v in enumerate(o):\n                if i and not _traverse(v) and _is_valid(v):")
+m('c11-context-uses-not-substituted', 'C11', 'config.py',
+  "        if self.global_vars is not None:\n            self.apply_global_vars(self.global_vars)", "        if self.global_vars is not None and 'uses' not in self._data:\n            self.apply_global_vars(self.global_vars)")
+# (returning the plain str when only undefined placeholders occurred is behaviourally equivalent: not a mutant)
+m('c11-repr-substituted', 'C11', 'utils/data.py', "            return ReprStr(new_string, string)", "            return ReprStr(new_string, new_string)")
+
 
 def make_scratch():
     d = Path(tempfile.mkdtemp(prefix='tcmut-'))
